@@ -2,6 +2,7 @@
 
 mod hist_eng;
 mod storage_eng;
+mod term_eng;
 
 use vcore::Args;
 use vcore::alloccap::CapAlloc;
@@ -29,6 +30,7 @@ fn run_engine(engine: &str, args: &Args) -> Report {
         "hist_c11" => drive(&hist_eng::Hist { prop: "C11" }, args),
         "hist_c18" => drive(&hist_eng::Hist { prop: "C18" }, args),
         "c13" => drive(&hist_eng::C13, args),
+        "c19" => drive(&term_eng::C19, args),
         _ => {
             eprintln!("unknown engine '{engine}'");
             std::process::exit(2);
